@@ -74,7 +74,7 @@ func genCase(t *rapid.T) Case {
 	for i := 0; i < n; i++ {
 		kind := "retain"
 		if i > 0 {
-			kind = rapid.SampledFrom([]string{"retain", "read", "read", "read-goroutine", "read-conn", "write", "conn-retain", "conn-retain", "conn-read", "conn-read", "retain-odd", "reserialize", "unmarshal", "answer", "inspect", "echo", "marshal-echo", "buf-retain", "buf-read", "buf-read", "scribble", "retain-again", "scribble", "forward"}).Draw(t, "kind")
+			kind = rapid.SampledFrom([]string{"retain", "read", "read", "read-goroutine", "read-conn", "write", "conn-retain", "conn-retain", "conn-read", "conn-read", "retain-odd", "reserialize", "unmarshal", "answer", "inspect", "echo", "marshal-echo", "buf-retain", "buf-read", "buf-read", "scribble", "retain-again", "scribble", "forward", "relay", "relay", "find-append"}).Draw(t, "kind")
 		}
 		var m gen.Msg
 		m.Flags, m.Code, m.App, m.HbH, m.E2E = cat.Header(t)
@@ -370,6 +370,20 @@ func runCase(c Case) *ev.Failure {
 				var w bytes.Buffer
 				a.WriteTo(&w)
 			}
+		case "relay":
+			// a relay builds other messages out of windows / elements of the AVP lists of the kept
+			// ones (Marshal of []*diam.AVP, *diam.AVP and diam.AVP fields followed by fields of its
+			// own; AddAVP / InsertAVP / NewAVP) and writes them: see relay_test.go
+			for _, r := range kept {
+				if f := relayKept(r, c.Dict.Name, p, i); f != nil {
+					return f
+				}
+			}
+		case "find-append":
+			// the holder appends to the slices FindAVPs / FindAVPsWithPath returned
+			for _, r := range kept {
+				findAppendKept(r)
+			}
 		case "echo":
 			// a relay / an answer that carries AVPs of the request: adding an AVP of a kept message
 			// to another message must not write into the kept one
@@ -601,7 +615,7 @@ func readThroughConn(p *dict.Parser, ref []byte, step int) *ev.Failure {
 
 var prop = ev.Register(&ev.Prop[Case]{
 	ID: "C06", Name: "retained",
-	Rule: "histories of {retain a decoded message, retain a message delivered by a long-lived library-served connection while that connection goes on receiving, read other content on the same goroutine / another goroutine / through a fresh or the same library-served in-memory connection, read / retain from one bytes.Buffer that the application refills, WriteTo, forward a kept message (WriteTo, WriteToWithRetry / WriteToStreamWithRetry against a transport that first refuses or accepts a part), re-serialise, Unmarshal into a reused struct, Answer, inspect (FindAVP / FindAVPs / FindAVPsWithPath through its groups, String, Len), echo the AVPs of a retained message into an answer with AddAVP / InsertAVP or through Marshal of a []*diam.AVP field, retain a non-canonical wire image (other widths of fixed-width, IPv4 and IPv6 AVPs, version octet 0 / 2 / 255), keep a second decoding of the bytes of the first retained message, overwrite in place the slice-backed values (and replace others, and flip a flag bit) of one retained message - the others must not change} with messages made of slice-backed types (Address IPv4/IPv6/other, IPv4, IPv6, OctetString, undefined codes, groups of them) on both sides of the 1 KiB pooled buffer; after EVERY step every retained message must still equal the abstract message it was decoded from (tree, re-serialisation, rendering, and the snapshot of code / flags / vendor id / Length / value bytes of every AVP taken when it was decoded); non-trivial = a retained message with a slice-backed value and body <= 1024 followed by a later read with body <= 1024",
+	Rule: "histories of {retain a decoded message, retain a message delivered by a long-lived library-served connection while that connection goes on receiving, read other content on the same goroutine / another goroutine / through a fresh or the same library-served in-memory connection, read / retain from one bytes.Buffer that the application refills, WriteTo, forward a kept message (WriteTo, WriteToWithRetry / WriteToStreamWithRetry against a transport that first refuses or accepts a part), re-serialise, Unmarshal into a reused struct, Answer, inspect (FindAVP / FindAVPs / FindAVPsWithPath through its groups, String, Len), echo the AVPs of a retained message into an answer with AddAVP / InsertAVP or through Marshal of a []*diam.AVP field, relay (build and write further messages with Marshal from structs whose []*diam.AVP / *diam.AVP / diam.AVP fields - first, in the middle, inside a Grouped struct, inside an embedded struct - hold EVERY window kept.AVP[i:j] of the AVP list of a kept message and of each group inside it, followed by fields of the relay's own, then NewAVP / AddAVP / InsertAVP on the marshalled message; the same windows AVP by AVP), append to the slices FindAVPs / FindAVPsWithPath returned, retain a non-canonical wire image (other widths of fixed-width, IPv4 and IPv6 AVPs, version octet 0 / 2 / 255), keep a second decoding of the bytes of the first retained message, overwrite in place the slice-backed values (and replace others, and flip a flag bit) of one retained message - the others must not change} with messages made of slice-backed types (Address IPv4/IPv6/other, IPv4, IPv6, OctetString, undefined codes, groups of them) on both sides of the 1 KiB pooled buffer; after EVERY step every retained message must still equal the abstract message it was decoded from (tree, re-serialisation, rendering, and the snapshot of code / flags / vendor id / Length / value bytes of every AVP taken when it was decoded); non-trivial = a retained message with a slice-backed value and body <= 1024 followed by a later read with body <= 1024",
 	Gen:  genCase, Run: runCase,
 	Classify: func(c Case) (bool, []string) {
 		var cl []string
